@@ -1,6 +1,6 @@
 (* C03 — levels and duplication events are reconstructed by the MRCA rule. *)
 From Coq Require Import List Arith Bool String Permutation.
-From PyHam Require Import Tax Ortho Loader Mapper Preds Hist Spell.
+From PyHam Require Import Tax Ortho Loader Mapper Preds Filter Hist Spell.
 From PyHam.proofs Require Import LoaderFacts ExplicitFacts ChainFacts SpellFacts.
 Import ListNotations.
 
@@ -13,9 +13,10 @@ Import ListNotations.
    it contains: close_level in SpellFacts.v); a maximal nest of paralogGroups becomes one duplication whose
    copies sit at their common-ancestor taxon under a HOG one level above (nest_eval, rehome_spec); every
    skipped level is materialised as a single-child HOG (ChainFacts.chain_completes).
-   Not covered by the spelling relation: LOFT attributes on geneRefs. *)
+   geneRefs may carry LOFT attributes; every gene is referenced at most once. *)
 Theorem c03_any_spelling : forall t d hs,
-  Forall (species_sane t) (d_species d) -> NoDup (declared d) -> Forall2 (spells_top t) hs (d_groups d) ->
+  Forall (species_sane t) (d_species d) -> NoDup (declared d) -> NoDup (flat_map refs_of (d_groups d)) ->
+  Forall2 (spells_top t) hs (d_groups d) ->
   (forall genes, map fst genes = declared d ->
      (forall g p, In (g, p) genes -> exists sp, In sp (d_species d) /\ In g (map gd_id (sp_genes sp)) /\ species_resolves t sp p) ->
      Forall (WFh t genes) hs) ->
